@@ -339,10 +339,16 @@ func c03Trips(maxRows int) Harness {
 				desc = append(desc, fmt.Sprintf("sort orders descending (%d)", so))
 			}
 		}
+		// three rows (thorough): the product over {known, blank, unknown} only - with all five values per cell it
+		// alone would take longer than the time cap allows
+		pick := []int{0, 1, 2, 3, 4}
+		if n >= 3 {
+			pick = []int{0, 1, 3}
+		}
 		for r := 0; r < n; r++ {
-			route := []string{"R1", "", "R2", "RX", "R1 "}[c.Free(fmt.Sprintf("trips[%d].route_id", r), 5)]
-			service := []string{"C1", "", "X1", "CX", " C1"}[c.Free(fmt.Sprintf("trips[%d].service_id", r), 5)]
-			shape := []string{"", "SH1", "SH2", "SHX", "SH1 "}[c.Free(fmt.Sprintf("trips[%d].shape_id", r), 5)]
+			route := []string{"R1", "", "R2", "RX", "R1 "}[pick[c.Free(fmt.Sprintf("trips[%d].route_id", r), len(pick))]]
+			service := []string{"C1", "", "X1", "CX", " C1"}[pick[c.Free(fmt.Sprintf("trips[%d].service_id", r), len(pick))]]
+			shape := []string{"SH1", "", "SH2", "SHX", "SH1 "}[pick[c.Free(fmt.Sprintf("trips[%d].shape_id", r), len(pick))]]
 			t.Rows = append(t.Rows, append([]string{}, p...))
 			t.set(r, "trip_id", fmt.Sprintf("T%d", r+1))
 			t.set(r, "route_id", route)
@@ -661,7 +667,7 @@ func init() {
 	register(&Check{
 		ID:    "C03",
 		Level: "model_checking",
-		Rule: "full products per table: stops 0..3 rows (thorough 0..4) x stop_id {'',S1,S2,S3} x parent {'',S1,S2,S3,SX}; routes 0..3 x agency_id {'',A,B,AX} x 8 agency configurations (single, two, duplicate ids, blank ids, ids differing in case only); stops 7 / 007 / 12 referenced as 7, 007, 12, 0012, 07, 7.0, +7; Stop.Root() must not change the result; three stops x parent {none, previous, next, dangling} x location type {blank, 1, 2, 4} with and without the inheritance option; trips 0..2 (thorough 3) x route/service/shape alphabets x duplicate route ids (<= 1 trip also x route_sort_order {as generated, descending, first blank then descending}); stop_times 0..2 (thorough 3) x trip {T1,'',T2,TX} x stop {S1,'',SX,S2} x duplicate trip ids; transfers 0..3 (quick 2) x from/to alphabets x duplicate stop ids; map iteration starts 0, 1, 2 applied uniformly to every library range; plus <= 2 deviations over all id / reference cells of an 18-table-row feed parent rings / rings with a tail / chains of up to 40 stops, trips over (route, service) pairs whose concatenations collide, and a growth sweep 1..40, 64, 65, 129, 257, 513, 1025 rows per table with three-level stop hierarchies throughout (parents first / children first), with and without InheritWheelchairBoarding (as the rings and chains); " +
+		Rule: "full products per table: stops 0..3 rows (thorough 0..4) x stop_id {'',S1,S2,S3} x parent {'',S1,S2,S3,SX}; routes 0..3 x agency_id {'',A,B,AX} x 8 agency configurations (single, two, duplicate ids, blank ids, ids differing in case only); stops 7 / 007 / 12 referenced as 7, 007, 12, 0012, 07, 7.0, +7; Stop.Root() must not change the result; three stops x parent {none, previous, next, dangling} x location type {blank, 1, 2, 4} with and without the inheritance option; trips 0..2 x route/service/shape alphabets of five values (thorough: also 3 rows over {known, blank, unknown}) x duplicate route ids (<= 1 trip also x route_sort_order {as generated, descending, first blank then descending}); stop_times 0..2 (thorough 3) x trip {T1,'',T2,TX} x stop {S1,'',SX,S2} x duplicate trip ids; transfers 0..3 (quick 2) x from/to alphabets x duplicate stop ids; map iteration starts 0, 1, 2 applied uniformly to every library range; plus <= 2 deviations over all id / reference cells of an 18-table-row feed parent rings / rings with a tail / chains of up to 40 stops, trips over (route, service) pairs whose concatenations collide, and a growth sweep 1..40, 64, 65, 129, 257, 513, 1025 rows per table with three-level stop hierarchies throughout (parents first / children first), with and without InheritWheelchairBoarding (as the rings and chains); " +
 			"non-trivial = distinct archives with at least two rows in the table under study (or any deviation); oracle = pointer-identity / named-id / forest invariants",
 		Assumptions: []string{"each result entity is traced to its row through a free-text column carrying the row number", "a route that names no agency may be linked only when there is exactly one agency"},
 		Scenarios: func(tier string) []*Scenario {
